@@ -277,38 +277,67 @@ func genMap16(t *rapid.T, maxCode int, allowBig bool) *map16 {
 var bigMapsOften bool
 
 // genBigMap fills m with one of the shapes that drive a format 4 subtable
-// towards the 64 KiB limit.
+// towards the 64 KiB limit.  Shapes that need long glyphIdArray ranges cost
+// the library's encoder seconds near the limit (its segment search is
+// quadratic there), so they stay small except for rare thorough-tier cases.
 func genBigMap(t *rapid.T, m *map16) {
 	fl := &filler{s: rapid.Uint64().Draw(t, "fillSeed")}
 	m.label("map:big")
-	switch rapid.IntRange(0, 3).Draw(t, "bigKind") {
-	case 0: // every second code, arbitrary glyphs: 4 bytes per code as one array
-		n := rapid.IntRange(2000, 17000).Draw(t, "bigN")
+	nearLimitArrays := bigMapsOften && rapid.IntRange(0, 59).Draw(t, "nearLimitArrays") == 59
+	switch rapid.IntRange(0, 5).Draw(t, "bigKind") {
+	case 0: // every second code, arbitrary glyphs: about 4 bytes per code, one array
+		n := rapid.IntRange(300, 3000).Draw(t, "bigN")
+		if nearLimitArrays {
+			n = rapid.IntRange(15800, 16400).Draw(t, "bigNL") // the limit is crossed near 16370
+		}
 		start := rapid.IntRange(0, 65535-2*n).Draw(t, "bigStart")
 		for i := 0; i < n; i++ {
 			m.g[start+2*i] = uint16(1 + fl.intn(65535))
 		}
 		m.label("map:big-even")
-	case 1: // isolated points: 8 bytes per point
-		n := rapid.IntRange(2000, 8400).Draw(t, "bigN")
-		stride := rapid.IntRange(7, 7).Draw(t, "bigStride")
+	case 1: // consecutive codes, arbitrary glyphs: 2 bytes per code
+		n := rapid.IntRange(300, 3000).Draw(t, "bigN")
+		if nearLimitArrays {
+			n = rapid.IntRange(32000, 32780).Draw(t, "bigNL") // the limit is crossed near 32750
+		}
+		start := rapid.IntRange(0, 65535-n).Draw(t, "bigStart")
+		for i := 0; i < n; i++ {
+			m.g[start+i] = uint16(1 + fl.intn(65535))
+		}
+		m.label("map:big-dense")
+	case 2: // isolated points: 8 bytes per point, the limit is crossed at 8189 points
+		n := rapid.SampledFrom([]int{8188, 8189, 8187, 8100, 7000, 8300}).Draw(t, "bigN")
+		if rapid.Bool().Draw(t, "bigNAny") {
+			n = rapid.IntRange(5000, 8400).Draw(t, "bigN2")
+		}
+		stride := 7
 		start := rapid.IntRange(0, 65535-stride*n).Draw(t, "bigStart")
 		for i := 0; i < n; i++ {
 			m.g[start+stride*i] = uint16(1 + fl.intn(65535))
 		}
 		m.label("map:big-isolated")
-	case 2: // short runs (length 2..3) separated by gaps of 6+
-		n := rapid.IntRange(2000, 7000).Draw(t, "bigN")
-		c := rapid.IntRange(0, 3000).Draw(t, "bigStart")
+	case 3: // short runs (length 2..3) separated by gaps of 6+
+		n := rapid.IntRange(4000, 7400).Draw(t, "bigN")
+		c := rapid.IntRange(0, 300).Draw(t, "bigStart")
 		for i := 0; i < n && c < 65530; i++ {
 			l := 2 + fl.intn(2)
 			g0 := uint16(1 + fl.intn(60000))
 			for j := 0; j < l; j++ {
 				m.g[c+j] = g0 + uint16(j)
 			}
-			c += l + 6 + fl.intn(3)
+			c += l + 6 + fl.intn(2)
 		}
 		m.label("map:big-shortruns")
+	case 4: // clusters of 3 arbitrary glyphs (array segments) separated by gaps of 6
+		n := rapid.IntRange(3000, 4800).Draw(t, "bigN")
+		c := rapid.IntRange(0, 300).Draw(t, "bigStart")
+		for i := 0; i < n && c < 65530; i++ {
+			for j := 0; j < 3; j++ {
+				m.g[c+j] = uint16(1 + fl.intn(65535))
+			}
+			c += 9 + fl.intn(2)
+		}
+		m.label("map:big-clusters")
 	default: // a mixture over the whole code space
 		c := 0
 		for c < 65536 {
